@@ -73,7 +73,8 @@ def coq_build(targets, timeout=2400):
     if not ok:
         return False, "translator failed:\n" + out
     coq_makefile()
-    rc, out2 = run(["flock", LOCK, "make", "-j%d" % NCPU] + list(targets), cwd=COQ, timeout=timeout)
+    # 24 GB address-space cap per coqc: a runaway vm_compute must not take the machine (and every other check) down
+    rc, out2 = run("ulimit -v 24000000; flock %s make -j%d %s" % (LOCK, NCPU, " ".join(targets)), cwd=COQ, timeout=timeout)
     return rc == 0, out + out2
 
 
